@@ -17,6 +17,7 @@ import (
 	"github.com/markusressel/fan2go/internal/controller"
 	"github.com/markusressel/fan2go/internal/fans"
 	"github.com/markusressel/fan2go/internal/hwmon"
+	"github.com/markusressel/fan2go/internal/persistence"
 	"github.com/markusressel/fan2go/internal/util"
 )
 
@@ -28,15 +29,17 @@ import (
 // injected through the hooked file layer.
 
 type ctrlEv struct {
-	T       string `json:"t"` // "poll" | "cycle" | "ext"
-	Rpm     *int   `json:"rpm,omitempty"`
-	Curve   *int   `json:"curve,omitempty"`
-	Dt      int64  `json:"dt,omitempty"` // ns since the previous control-loop call
-	ReadOk  bool   `json:"read_ok,omitempty"`
-	WriteOk bool   `json:"write_ok,omitempty"`
-	ModeOk  bool   `json:"mode_ok,omitempty"`
-	Mode    *int   `json:"mode,omitempty"`
-	Pwm     *int   `json:"pwm,omitempty"`
+	T   string `json:"t"` // "poll" | "cycle" | "ext"
+	Rpm *int   `json:"rpm,omitempty"`
+	// poll only: the read of the PWM control inside the RPM measurement fails (the reading itself is still taken)
+	PwmFail bool  `json:"pwm_fail,omitempty"`
+	Curve   *int  `json:"curve,omitempty"`
+	Dt      int64 `json:"dt,omitempty"` // ns since the previous control-loop call
+	ReadOk  bool  `json:"read_ok,omitempty"`
+	WriteOk bool  `json:"write_ok,omitempty"`
+	ModeOk  bool  `json:"mode_ok,omitempty"`
+	Mode    *int  `json:"mode,omitempty"`
+	Pwm     *int  `json:"pwm,omitempty"`
 	// ext only, generation time: choose the externally written PWM from the controller's state when the event
 	// is reached ("req" = the last request itself, "key" = the supported input nearest to it, "near" = expected
 	// output +-1); the concrete value is stored in Pwm and the field cleared, so the recorded input is plain.
@@ -60,6 +63,9 @@ type ctrlIn struct {
 	// UpdateFanConfigFromHwMonControllers -> setFanConfigPaths) on a chip that also carries ANOTHER fan's tachometer
 	// and PWM control: 1 = `index: 1`; 2 = `index: 1` + `pwmChannel: 2`; 3 = `rpmChannel: 2` + `pwmChannel: 1`
 	Glue int `json:"glue,omitempty"`
+	// how the PWM map reaches the controller: "" = set directly; "cfgdb" = `pwmMap:` override of the fan's configuration
+	// through the real computePwmMap, with a DIFFERENT (dense identity) map already stored by the real persistence layer
+	PmRoute string `json:"pm_route,omitempty"`
 	// driver `ctrllag` only: the device is asynchronous — reads of the PWM control in the control cycle that wrote it still
 	// show the previous content; from the next event on the new one (observer-only cases: the model's device reads back at once)
 	Lag     bool     `json:"lag,omitempty"`
@@ -232,6 +238,13 @@ func runCtrl(ctx *Ctx, in ctrlIn) ([]ctrlObs, string) {
 			os.WriteFile(rpmPath, []byte("0"), 0644)
 		}
 	}
+	if in.PmRoute == "cfgdb" {
+		given := map[int]int{}
+		for _, kv := range in.Pm {
+			given[kv[0]] = kv[1]
+		}
+		cfg.PwmMap = &given
+	}
 	if glueCfg != nil {
 		cfg.HwMon = glueCfg
 		if err := hwmon.UpdateFanConfigFromHwMonControllers(hwmon.GetChips(), &cfg); err != nil {
@@ -267,12 +280,29 @@ func runCtrl(ctx *Ctx, in ctrlIn) ([]ctrlObs, string) {
 		loop = ctrlLoopFromConfig(dir, in, fan)
 	}
 	curve := &ctrlStubCurve{}
-	c := controller.VerifNewController(nil, fan, curve, loop, 100*time.Millisecond)
 	pm := map[int]int{}
 	for _, kv := range in.Pm {
 		pm[kv[0]] = kv[1]
 	}
-	c.VerifSetPwmMap(pm)
+	var c *controller.DefaultFanController
+	if in.PmRoute == "cfgdb" {
+		pers := persistence.NewPersistence(filepath.Join(dir, "fan2go.db"))
+		dense := map[int]int{}
+		for k := 0; k <= 255; k++ {
+			dense[k] = k
+		}
+		if err := pers.SaveFanPwmMap(fan.GetId(), dense); err != nil {
+			panic(err)
+		}
+		c = controller.VerifNewController(pers, fan, curve, loop, 100*time.Millisecond)
+		if err := c.VerifComputePwmMap(); err != nil {
+			panic("pm_route: " + err.Error())
+		}
+		c.VerifUpdateDistinct()
+	} else {
+		c = controller.VerifNewController(nil, fan, curve, loop, 100*time.Millisecond)
+		c.VerifSetPwmMap(pm)
+	}
 	configuration.CurrentConfig.RpmRollingWindowSize = in.NRpm
 
 	// hooks
@@ -369,8 +399,15 @@ func runCtrl(ctx *Ctx, in ctrlIn) ([]ctrlObs, string) {
 			if in.Kind == "cmd" && rpmFail {
 				os.WriteFile(rpmPath, []byte("garbage"), 0644)
 			}
+			if ev.PwmFail {
+				readFail = true
+				if in.Kind == "cmd" {
+					os.WriteFile(failFlag, []byte("x"), 0644)
+				}
+			}
 			p := catch(func() { c.VerifMeasureRpm() })
-			rpmFail = false
+			rpmFail, readFail = false, false
+			os.Remove(failFlag)
 			if p != "" {
 				obs = append(obs, snapshot(3))
 			} else {
@@ -631,6 +668,7 @@ func genCtrlCase(rng *Rng, mode string, cmdOK bool) (ctrlIn, []string) {
 	}
 	tags = append(tags, "alg="+in.Alg)
 	cfgAlg := rng.Chance(1, 4)
+	pmRouteOn := rng.Chance(1, 4)
 	glueSel := rng.Intn(12)
 	glueOn := in.Kind == "hwmon" && glueSel < 6 // half of the hwmon cases (when they have an RPM input)
 	in.NRpm = []int{1, 2, 3, 10, 10, 50}[rng.Intn(6)]
@@ -694,6 +732,11 @@ func genCtrlCase(rng *Rng, mode string, cmdOK bool) (ctrlIn, []string) {
 		n = rng.Range(30, 60)
 		stallFrom = 0
 	}
+	// the PWM read-back inside the RPM measurement: fine / failing now and then / failing persistently
+	pollPwmFail := 0
+	if mode == "fault" || mode == "stall" || mode == "stallext" {
+		pollPwmFail = []int{0, 0, 1, 2}[rng.Intn(4)]
+	}
 	recoverAt := n / 2
 	lowCurve := rng.Range(0, 40)
 	for i := 0; i < n; i++ {
@@ -746,7 +789,7 @@ func genCtrlCase(rng *Rng, mode string, cmdOK bool) (ctrlIn, []string) {
 				default:
 					rpm = ctrlPtr(rng.Range(1, 4000))
 				}
-				in.Hist = append(in.Hist, ctrlEv{T: "poll", Rpm: rpm})
+				in.Hist = append(in.Hist, ctrlEv{T: "poll", Rpm: rpm, PwmFail: pollPwmFail == 2 || (pollPwmFail == 1 && rng.Chance(1, 3))})
 			}
 		}
 		e := ctrlEv{T: "cycle", Dt: ctrlGenDt(rng), ReadOk: true, WriteOk: true, ModeOk: true}
@@ -787,6 +830,19 @@ func genCtrlCase(rng *Rng, mode string, cmdOK bool) (ctrlIn, []string) {
 			in.Hist = append(in.Hist, ctrlEv{T: "poll", Rpm: ctrlPtr(rng.Range(600, 3000))})
 			in.Hist = append(in.Hist, ctrlEv{T: "cycle", Curve: ctrlPtr(v), Dt: int64(rng.Range(50, 2000)) * 1e6, ReadOk: true, WriteOk: true, ModeOk: true})
 		}
+	}
+	if mode == "sweep" { // every curve value once, in order, with the plain direct algorithm: dense comparison points for C07
+		in.Alg, in.CfgAlg, in.NeverStop = "direct", "", false
+		in.Hist = nil
+		lo, step := rng.Range(0, 3), rng.Range(1, 3)
+		for v := lo; v <= 255; v += step {
+			in.Hist = append(in.Hist, ctrlEv{T: "cycle", Curve: ctrlPtr(v), Dt: 200 * 1e6, ReadOk: true, WriteOk: true, ModeOk: true})
+		}
+		pmRouteOn = rng.Bool()
+	}
+	if pmRouteOn {
+		in.PmRoute = "cfgdb"
+		tags = append(tags, "pm_route=cfgdb")
 	}
 	if glueOn && in.HasRpm {
 		in.Glue = 1 + int(glueSel%3)
